@@ -19,7 +19,7 @@ Task: produce {n} DIFFERENT, independent source changes to soprano (each a small
   1. breaks the property above (some clause of it) on some input / sequence / configuration,
   2. still imports and still passes the existing pinned test suite exactly as before: run
        cd {wt} && PYTHONPATH={wt} /venv/bin/python -m pytest -q -p no:cacheprovider --timeout=900 --continue-on-collection-errors
-     Baseline on the unchanged tree: 116 passed, 10 failed (the 10 failures are pre-existing: test_calculator, gene_tests, phylogen_tests, submit_tests::test_queueint). With your change the same 116 must pass and the same 10 fail.
+     Baseline on the unchanged tree: 124 passed, 2 failed (the 2 failures are pre-existing: collection_tests::test_calculator, submit_tests::test_queueint). With your change the same 124 must pass and the same 2 fail.
   3. needs something specific to manifest (an unusual input, a particular tie/degeneracy, a multi-step sequence of operations, a particular option combination, a specific state) rather than breaking every ordinary use at once. Prefer subtle changes over blatant ones. The changes should touch different mechanisms / clauses of the property.
 
 For each change k = 1..{n} deliver, under {wt}/_seed/k/:
@@ -27,6 +27,6 @@ For each change k = 1..{n} deliver, under {wt}/_seed/k/:
   - demo.py : a small self-contained program that is run as  `cd <tree> && PYTHONPATH=<tree> /venv/bin/python _seed/k/demo.py`  (it must not hard-code the tree path; use the soprano importable from PYTHONPATH). It must exit 0 on the UNCHANGED tree and exit non-zero (with a short message saying what went wrong) on the tree with the change applied. It must test the property as stated above (not an implementation detail).
   - meta.json : {{"property": "{pid}", "title": short title, "clause": which clause of the property is broken, "needs": what is needed for it to manifest, "files": [changed files]}}
 
-Verify everything yourself before finishing: for each k, from a clean worktree: demo passes (exit 0); apply the patch; demo fails (non-zero); the test suite gives 116 passed / the same 10 failed; then `git checkout -- .` to restore. Leave the worktree clean (only the untracked _seed/ directory added). Python: use /venv/bin/python (numpy, scipy, ase are available; there is no network).
+Verify everything yourself before finishing: for each k, from a clean worktree: demo passes (exit 0); apply the patch; demo fails (non-zero); the test suite gives 124 passed / the same 2 failed; then `git checkout -- .` to restore. Leave the worktree clean (only the untracked _seed/ directory added). Python: use /venv/bin/python (numpy, scipy, ase are available; there is no network).
 
 Final answer: for each change, one paragraph: what it changes, what it needs to manifest, and the verification results you observed (demo clean / demo patched / pytest counts).""")
